@@ -1,4 +1,4 @@
-import LinOp.C07.ProofsAll
+import LinOp.C07.ProofsToeplitz
 import LinOp.C07.ProofsFunc
 /-!
 C07 — gradients through operators equal gradients through the dense computation.  Property theorems only.
@@ -13,25 +13,22 @@ open LinOp Matrix
 variable {α : Type} [CommRing α]
 
 /-- **Hand-written derivative = derivative of the dense matrix** (`bilinearDerivative_<class>` and
-`bilinearDerivative_nested` in one statement): for every operator tree built from Dense, Diag, ConstantDiag, ConstantMul
-(incl. the constant's own gradient), Matmul, Sum/AddedDiag, Mul, Masked, Interpolated, BlockDiag, BlockInterleaved and
-SumBatch — any depth, any sizes, any number of vector pairs — and every perturbation `δ` of the parameters,
+`bilinearDerivative_nested` in one statement), FULL: for EVERY operator tree of the model — Dense, Diag, ConstantDiag,
+Toeplitz (`sym_toeplitz_derivative_quadratic_form`), ConstantMul (incl. the constant's own gradient), Matmul, Sum/AddedDiag,
+Mul, Masked, Interpolated, BlockDiag, BlockInterleaved, SumBatch, nested to any depth, any sizes, any number of vector
+pairs — and every perturbation `δ` of the parameters,
 `Σ_k (op._bilinear_derivative(U, V))_k · δ_k = Σ_c u_cᵀ (D⟦op⟧_θ[δ]) v_c`, the ε-part of `Σ_c u_cᵀ ⟦op(θ+εδ)⟧ v_c`.
-Structural induction over all constructors (`all_correct`); only the Toeplitz LEAF is excluded here. -/
-theorem bilinearDerivative_toeplitzFree {n m : Nat} (o : Op n m) (h : toeplitzFree o) (θ δ : Param α o)
-    {d : Nat} (U : Mat α n d) (V : Mat α m d) :
+Structural induction over all 13 constructors (`all_correct`), each step feeding the intermediate vectors to the sub-operator. -/
+theorem bilinearDerivative_all {n m : Nat} (o : Op n m) (θ δ : Param α o) {d : Nat} (U : Mat α n d) (V : Mat α m d) :
     pair o (bilinDeriv o θ U V) δ = bil (dDenote o θ δ) U V := by
   rw [bil_eq_bilS]
-  exact (all_correct o (Or.inl h)).2 θ δ d U V
+  exact (all_correct o (Or.inr correct_toeplitz)).2 θ δ d U V
 
-/-- The same for EVERY operator tree of the model, given the statement for the Toeplitz leaf
-(`sym_toeplitz_derivative_quadratic_form`), which is the one step lemma not closed (it is evaluated by the driver, `dbil`,
-on every run).  PARTIAL: the full claim is this theorem without the hypothesis `hT`. -/
-theorem bilinearDerivative_all_partial {n m : Nat} (o : Op n m) (hT : ∀ k : Nat, Correct α (.toeplitz k))
-    (θ δ : Param α o) {d : Nat} (U : Mat α n d) (V : Mat α m d) :
-    pair o (bilinDeriv o θ U V) δ = bil (dDenote o θ δ) U V := by
-  rw [bil_eq_bilS]
-  exact (all_correct o (Or.inr hT)).2 θ δ d U V
+/-- The Toeplitz leaf on its own: `sym_toeplitz_derivative_quadratic_form(U, V)[k] = Σ_c Σ_{|a−b| = k} U[a,c] V[b,c]`
+(two triangular Toeplitz products minus the doubly counted diagonal). -/
+theorem bilinearDerivative_toeplitz {n d : Nat} (U V : Mat α n d) (k : Fin n) :
+    toeplitzQF U V k = ∑ c, ∑ b, (∑ a, if absDiff a b = k then U a c else 0) * V b c :=
+  toeplitzQF_eq U V k
 
 /-- The ε⁰-part of the dual-number evaluation is the operator itself: `⟦o⟧(θ+εδ) = ⟦o⟧θ + ε·(…)`, all trees. -/
 theorem denote_dual_re {n m : Nat} (o : Op n m) (θ δ : Param α o) (i : Fin n) (j : Fin m) :
@@ -53,11 +50,11 @@ theorem denote_dual_re {n m : Nat} (o : Op n m) (θ δ : Param α o) (i : Fin n)
 
 /-- **BatchRepeat / broadcast parameters are summed** (`broadcast_params_summed`): moving the repeat batches into the
 columns delivers to the base operator's parameters the SUM over the repeats of the per-repeat bilinear forms. -/
-theorem batchRepeat_params_summed {n m : Nat} (o : Op n m) (h : toeplitzFree o) (θ δ : Param α o) {r d : Nat}
+theorem batchRepeat_params_summed {n m : Nat} (o : Op n m) (θ δ : Param α o) {r d : Nat}
     (U : Fin r → Mat α n d) (V : Fin r → Mat α m d) :
     pair o (batchRepeatDeriv o θ U V) δ = ∑ q, bil (dDenote o θ δ) (U q) (V q) := by
   simp only [bil_eq_bilS]
-  exact batchRepeatDeriv_correct o (all_correct o (Or.inl h)).2 θ δ U V
+  exact batchRepeatDeriv_correct o (all_correct o (Or.inr correct_toeplitz)).2 θ δ U V
 
 /-- **Nesting** (`bilinearDerivative_nested`, the Matmul step): if both factors' derivative code is correct for
 ALL vector pairs, then the product's is — its code hands the *intermediate* vectors `B V` and `Aᵀ U` to the factors.
@@ -165,9 +162,8 @@ theorem logdet_probe_estimator {n : Nat} (Ainv dA Z : Matrix (Fin n) (Fin n) α)
     Matrix.trace (Zᵀ * (Ainv * dA) * Z) = Matrix.trace (Ainv * dA) :=
   probe_estimator_exact Ainv dA Z hZ
 
-/-- The hypothesis of the main theorem is satisfiable by a depth-4 nesting through every kind of step. -/
-example : toeplitzFree (.constMul (.matmul (.sum (.dense 2 3) (.dense 2 3))
-    (.sumBatch 2 (.mul (.blockDiag 3 (.diag 1)) (.dense 3 3))))) := by
-  simp [toeplitzFree]
+/-- A non-trivial instance of the main theorem's quantifier: a depth-4 nesting through every kind of step. -/
+example : Op 3 3 := .constMul (.matmul (.sum (.toeplitz 3) (.dense 3 3))
+    (.sumBatch 2 (.mul (.blockDiag 3 (.diag 1)) (.masked (fun i => i) (fun j => j) (.dense 3 3)))))
 
 end LinOp.C07
